@@ -432,7 +432,7 @@ func suiteC01(c *Ctx) {
 			c.emit(Case{"roundtrip-large", g.steps, false})
 		}
 	}
-	n := c.scale(1200, 4000)
+	n := c.scale(1200, 2500)
 	for i := 0; i < n; i++ {
 		g := c.gen()
 		var m int
@@ -449,7 +449,7 @@ func suiteC01(c *Ctx) {
 		default:
 			depth := g.pick(5)
 			if g.chance(0.05) {
-				depth = 20 + g.pick(c.scale(230, 480))
+				depth = 20 + g.pick(c.scale(230, 330))
 			}
 			var it int
 			if depth >= 20 {
@@ -460,7 +460,7 @@ func suiteC01(c *Ctx) {
 				}
 				g.count("deep-chain")
 			} else {
-				it = g.tree(treeOpts{depth: depth, maxLeaf: c.scale(400, 2000)})
+				it = g.tree(treeOpts{depth: depth, maxLeaf: c.scale(400, 1000)})
 			}
 			m = g.hsmsMsg(it)
 		}
